@@ -223,6 +223,21 @@ func leave(srv *speaker.Server, p *speaker.Peer, s *speaker.Session, c ccase) (h
 	budget := 5 * time.Second
 	switch cause {
 	case "peer-gone":
+		// bio-rd's keepalive interval is a third of the hold time, so a hold timer that starts at the beginning
+		// of the session expires just when a KEEPALIVE is due. The peer's last message is therefore placed
+		// half an interval behind one of bio-rd's KEEPALIVEs: from there bio-rd writes three more KEEPALIVEs,
+		// and its fourth write is the HoldTimeExpired NOTIFICATION.
+		n0 := s.Conn.WriteCount()
+		for deadline := time.Now().Add(5 * time.Second); s.Conn.WriteCount() == n0; time.Sleep(time.Millisecond) {
+			if time.Now().After(deadline) {
+				return "", "bio-rd wrote no KEEPALIVE within 5 s"
+			}
+		}
+		time.Sleep(time.Duration(c.Cfg.Hold) * time.Second / 6)
+		s.SendKeepalive()
+		if r := s.Sync(); !r.OK() || !s.Established() {
+			return "", fmt.Sprintf("a KEEPALIVE ended the session (%v)", r)
+		}
 		s.Conn.FailWrites(nil, c.WritesOK)
 		budget = 20 * time.Second // hold time 3 or 4 s
 	case "notification":
@@ -650,8 +665,7 @@ func genCases(r *vf.Run) []any {
 						cc := ccase{Cfg: cfg, Cause: cause, Twice: (i+rep)%5 == 0}
 						if cause == "peer-gone" {
 							// hold time 3: the expiry is noticed on the keepalive timer's path; 4: by the periodic check.
-							// bio-rd writes a KEEPALIVE every hold/3 and the peer's last message is just behind the
-							// start of the session, so the 4th write from here on is the HoldTimeExpired NOTIFICATION
+							// The 4th write after the peer's last message is the HoldTimeExpired NOTIFICATION (see leave)
 							cc.Cfg.Hold = 3 + i%2
 							cc.WritesOK = 3
 						}
